@@ -115,7 +115,7 @@ OWN_USE_FAILS = dict(task_faults=('invalid', 'server_error', 'lost'), focus='own
 def e_configs(ctx):
     base = dict(hosts=3, proto=4, ks0=None, convict=True, entry='use', timeout=None, kinds=KINDS3, max_defunct=1)
     never = dict(base, convict=False)
-    full = 30          # "to exhaustion": the reachable space of these configurations ends well before this depth
+    full = 40          # "to exhaustion": the reachable space of these configurations ends before this depth (deepest: 28)
     two = dict(never, hosts=2)
     cfgs = [
         ('v4-convict', dict(base), 7),
@@ -242,7 +242,7 @@ def dedup_differential(ctx):
                                 ('v4-2sw-back', dict(never, hosts=2, ks0='ks1', switches=('ks2', 'ks1')), 9),
                                 ('v4-orphan', dict(never, hosts=2, max_orphan=1), 8),
                                 ('v4-renew-2sw', dict(never, hosts=2, ks0='ks1', switches=('ks2', 'ks3'), max_defunct=0,
-                                                      renew=True, suspend=True), 13)):
+                                                      renew=True, suspend=True, max_task_faults=1), 13)):
         seen = []
         for nodedup in (False, True):
             sub = Ctx(ctx.prop, tier=ctx.tier, seed=ctx.seed, silent=True)
